@@ -14,9 +14,22 @@ MANIFEST = dict(
           "every history from their constructors, the descents of addNode/Delete instrumented with one tick per comparator call "
           "return ins/del and cmpCount (Props/C02Rev.lean). Tied to /repo on every run: shape/colour dump equality of model and real tree after every call, "
           "an invariant audit executed on the real tree (incl. parent links), and the measured comparator-call count compared with "
-          "the model's count exactly and with the bound."),
-    note=COMMON_NOTE + " Parent pointers do not exist in the functional model: their consistency is established by the audit "
-         "walker on the implementation after every call, not by proof.",
-    technique="Lean 4 invariant proof over all histories (red-black invariants preserved by insert/delete fix-ups; height bound) + "
+          "the model's count exactly and with the bound. POINTER LEVEL (Ekit/Props/C02Ptr.lean): harness/minigo translates every function "
+          "of the current internal/tree/red_black_tree.go into a deep embedding of a Go subset (Ekit/Generated/RBTreeGo.lean) whose "
+          "interpreter (Ekit/MiniGo/Lang.lean: heap of nodes with left/right/parent pointers, nil dereference = panic, fuel for loops and "
+          "calls) is what the theorems are about: after every history of Add/Delete/Find/Set from NewRBTree, for every comparator function "
+          "and every fuel, the heap holds a tree without sharing or cycles in which the root has no parent, every child's parent link points "
+          "back and every non-root node is a child of the node its parent link names (c02_ptr_history_parent_links); proved through a "
+          "contract for all syntactically safe procedures (one induction over the syntax, so the fix-up procedures are covered whatever "
+          "they do with colours) and one lemma each for rotateLeft, rotateRight, addNode, deleteNode. The translated program is run "
+          "against the real tree on every trace (area rbptr: results, size, colour/key/shape dump after every call)."),
+    note=COMMON_NOTE + " Parent pointers do not exist in the functional model; their consistency is proved for the MiniGo "
+         "translation of the source (regenerated on every run) and additionally established by the audit walker on the implementation "
+         "after every call. Trusted there: the translator harness/minigo (a syntax dump) and the interpreter's reading of Go "
+         "(evaluation order, nil dereference, loops) - both exercised against the real code by the rbptr correspondence; the pointer-level "
+         "theorems assume the operation returns (no panic, enough fuel); the functional and the pointer-level model are related only "
+         "through the real code (both must reproduce its dumps).",
+    technique="Lean 4 invariant proof over all histories (red-black invariants preserved by insert/delete fix-ups; height bound; "
+              "pointer-level parent/child consistency proved about the Go source translated to a deep embedding on every run) + "
               "white-box trace-acceptance correspondence and implementation-side audit",
 )
